@@ -80,8 +80,17 @@ def body(chk, db, cfgname):
     t1, t2 = [("param", p["d"], p["n"]) for p in cmpf.params]
     pole = lambda t_: ("field", GFP + "::Term::Pole", t_)
     site = GFP + "::Term::Compare"
-    if k == ("op", ">=", ("op", "-", pole(t2), pole(t1)), fld(GFP + "::Term::Compare::Tolerance")) or \
-            k == ("op", "<=", fld(GFP + "::Term::Compare::Tolerance"), ("op", "-", pole(t2), pole(t1))):
+    Fc = Formula(real_atoms=True)
+    p1, p2 = Fc.name_atom(pole(t1), "P1"), Fc.name_atom(pole(t2), "P2")
+    tl = Fc.name_atom(fld(GFP + "::Term::Compare::Tolerance"), "tol")
+    okc = False
+    if k[0] == "op" and k[1] in (">=", "<=", ">", "<"):
+        d_ = Fc.conv(k[2]) - Fc.conv(k[3])
+        if k[1] in ("<=", "<"):
+            d_ = -d_
+        # t1 "less than" t2  iff  P2 - P1 - tol >= 0   (strict '>' differs only on a null set)
+        okc = Fc.equal(d_, p2 - p1 - tl)
+    if okc:
         r5.ok(site, cmpf.loc(), "t1 < t2 iff t2.Pole - t1.Pole >= Tolerance (poles closer than Tolerance are equivalent)", cfgname)
     else:
         r5.bad(site, cmpf.loc(), "ordering of terms is not 't2.Pole - t1.Pole >= Tolerance': like poles are not merged / unlike ones are", cfgname)
@@ -91,8 +100,19 @@ def body(chk, db, cfgname):
     k = nctx.key(neg.nodes[rets[0]]["sub"])
     tt, dv = [("param", p["d"], p["n"]) for p in neg.params]
     site = GFP + "::Term::IsNegligible"
-    want = ("op", "<", ("call", "std::abs", ("field", GFP + "::Term::Residue", tt)), ("op", "/", fld(GFP + "::Term::IsNegligible::Tolerance"), dv))
-    if k == want:
+    Fn = Formula(real_atoms=True)
+    absr = Fn.name_atom(("call", "std::abs", ("field", GFP + "::Term::Residue", tt)), "absR")
+    Fn.alias[("call", "abs", ("field", GFP + "::Term::Residue", tt))] = ("call", "std::abs", ("field", GFP + "::Term::Residue", tt))
+    tl = Fn.name_atom(fld(GFP + "::Term::IsNegligible::Tolerance"), "tol")
+    dd = Fn.name_atom(dv, "div")
+    okn = False
+    if k[0] == "op" and k[1] in ("<", ">", "<=", ">="):
+        d_ = Fn.conv(k[2]) - Fn.conv(k[3])
+        if k[1] in (">", ">="):
+            d_ = -d_
+        # |R| - tol/div < 0, also accepted multiplied by the positive divisor
+        okn = Fn.equal(d_, absr - tl / dd) or Fn.equal(d_, absr * dd - tl)
+    if okn:
         r5.ok(site, neg.loc(), "|Residue| < Tolerance / divisor", cfgname)
     else:
         r5.bad(site, neg.loc(), "negligibility test is not |Residue| < Tolerance/divisor", cfgname)
